@@ -1,6 +1,6 @@
 (* C15  Relative class names resolve against the including class's directory.  Statements only;
    proofs in Proofs/NamesFacts.v about Model/Names.v (abs_class_name). *)
-From RV Require Import Model.Names Proofs.NamesFacts.
+From RV Require Import Model.Names Model.Node Proofs.NamesFacts Proofs.IncludeEntries.
 
 (** Every include is [dots n ++ rest] with rest not starting with a dot, in exactly one way. *)
 Theorem C15_shape_of_names :
@@ -40,6 +40,24 @@ Theorem C15_nodes_resolve_from_root :
   forall n rest, no_leading_dot rest -> abs_class_name [] (dots (S n) ++ rest) = rest.
 Proof. exact abs_from_node. Qed.
 Eval cbv in "ASSUMPTIONS-OF C15_nodes_resolve_from_root"%string. Print Assumptions C15_nodes_resolve_from_root.
+
+(** Every entry of an include list is made absolute on its own against the location of the class that
+    holds the list: the loaded list holds exactly the resolved names of the written entries (each once),
+    so what one entry resolves to does not depend on the entries before it (Proofs/IncludeEntries.v). *)
+Theorem C15_include_entries_resolve_independently :
+  forall loc doc n, node_of_yaml loc doc = Ok n ->
+    exists fields cs,
+      doc = YMap fields /\ y_string_list "classes" (y_field "classes" fields) = Ok cs /\
+      NoDup (n_classes n) /\
+      forall x, In x (n_classes n) <-> exists c, In c cs /\ x = abs_class_name loc c.
+Proof. exact include_entries_resolve_independently. Qed.
+Eval cbv in "ASSUMPTIONS-OF C15_include_entries_resolve_independently"%string. Print Assumptions C15_include_entries_resolve_independently.
+
+(** non-vacuity: a list with a two-dot entry before a one-dot entry, in a class two levels down *)
+Example C15_entries_nonvacuous :
+  exists n, node_of_yaml ["a"; "b"]%string (YMap [(YStr "classes", YSeq [YStr "..shared"; YStr ".leaf"])]) = Ok n /\
+            n_classes n = ["a.shared"; "a.b.leaf"]%string.
+Proof. eexists. split; reflexivity. Qed.
 
 (** The absolute name denotes itself: replacing a relative include by the absolute name it
     denotes changes nothing that is looked up (the render only ever sees abs_class_name). *)
